@@ -38,7 +38,7 @@ META = {
          'registration collections are ordered sets iterated directly for leaves / slot / lookup; Ord reads exactly the committed fields; leaf encoding covers the leaf; AVK and closed registration built on one path; every node goes through SignerBuilder::new; total stake = checked sum',
          'injectivity of the commitment (hash); codec round trips'),
  'C08': ('static analysis: who-may-call + argument-role provenance + effect-closure purity',
-         'is_lottery_won has exactly the signer and verifier callers with identical argument roles; the draw hashes message, index and sigma; the decision closure is effect-free; the signer iterates 0..m',
+         'is_lottery_won has exactly the signer and verifier callers with identical argument roles; the draw hashes message, index and sigma; the decision closure is effect-free; the signer iterates 0..m; stake and total stake are converted losslessly',
          'the numerical core: exactness of the Taylor comparison, error band, monotonicity, zero-stake / phi_f=1 outcomes'),
  'C11': ('static analysis: who-may-construct + must-pass-through + provenance + format-template injectivity + field coverage',
          'Verified* values only from verify(); per-set-proof verification, common root, at least one; v2 root/items/offset provenance; leaf identifier covers all fields with injective text templates; stake leaf template; message recomputation from verified values; nested map proof rules',
